@@ -58,7 +58,7 @@ CLAIMS = {
          "DESIGN.md §3 C10"),
  "C11": ("fault_enumeration",
          "fault injection at generated storage-operation positions x mode x kind x thread in child processes, judged against the sequential model and the durable crash image (proptest + process isolation)",
-         "For generated histories a fault-free dry run counts the storage operations; generated positions (fraction of the count) x {once, permanent} x kind filter x thread filter are injected in a child process; every Ok commit's minimal durable image must open and equal its model, after the run the index equals the last successful (or the failed-but-published) commit, a new writer continues, and (without a merging policy) after one more commit and collection on healthy storage nothing is left of the failed work - every leftover file would at least have to be managed still; abort, panic or a stalled child is a violation.",
+         "For generated histories a fault-free dry run counts the storage operations; generated positions (fraction of the count) x {once, permanent} x kind filter x thread filter are injected in a child process; every Ok commit's minimal durable image must open and equal its model, after the run the index equals the last successful (or the failed-but-published) commit, a new writer continues, the failed transaction issued again on a new writer goes through, and (without a merging policy) after one more commit and collection on healthy storage nothing is left of the failed work - every leftover file would at least have to be managed still; abort, panic or a stalled child is a violation.",
          "faults are io::Errors returned by Directory operations of SimDir; positions are sampled (24-40 per history), not all k; hang = no output and no CPU progress for 20 s",
          "DESIGN.md §3 C11"),
  "C12": ("exploration",
